@@ -25,7 +25,7 @@ def run(tier):
     wd = vlib.workdir("c11")
     # thorough: every behaviour of depth 2 on all models, and of depth 3 on the model whose shapes cache a pointer into a
     # separate geometry block (about 21 000 behaviours under ASan)
-    passes = [(2, FILES[:4])] if tier == "quick" else [(2, FILES), (3, FILES[:1])]
+    passes = [(2, FILES[:3])] if tier == "quick" else [(2, FILES), (3, FILES[:1])]
     for depth, files in passes:
         cfg = os.path.join(wd, "mc.cfg")
         open(cfg, "w").write("SPECIFICATION Spec\nCONSTANTS Depth = %d\n Pre = 1\n Export = TRUE\nINVARIANT CopyEqual\nINVARIANT Emit\nCHECK_DEADLOCK FALSE\n" % depth)
